@@ -36,6 +36,13 @@ def accOp (toks : List String) : Option String :=
       match setTail c p.lo v with
       | .ok c' => pure s!"ok {show' (getTail c p.lo)} {bytesToHex c'} {show' (getTail c' p.lo)}"
       | _ => pure "panic"
+  | ["accl", _t, ch, _iei, _len, newlen, newiei] => do
+    -- SetLen / SetIei on an array-backed element: each stores its own field, the contents stay (the harness pads the contents
+    -- to the array size; the driver echoes them as given, the harness-side op prints the whole array)
+    let c ← hexToBytes ch
+    let nl ← newlen.toNat?
+    let ni ← newiei.toNat?
+    pure s!"ok {bytesToHex c} {ni} {nl}"
   | ["accs", "DNN", oh, th] => do
     -- the text-valued pair: `SetDNN(text)` on an element holding `old`, then `GetDNN()`
     let old ← hexToBytes oh
